@@ -124,6 +124,19 @@ theorem terminates (k : Kind) (ig : Bool) (s s' : S) (ls : List Lbl)
   refine ⟨(run_facts ls s s' hr hrun).2.2.2, ?_⟩
   cases k <;> cases ig <;> decide
 
+/-- C16.calls_independent: overlapping calls through one wrapper.  In every run of a system of
+calls (any number, any profiles, any interleaving of their labels) each call's component is the
+result of running the single-call LTS on that call's own labels – so `outcome`, `cleanup`,
+`quiescent_clean`, `progress` and `terminates` hold for every call, whatever the others do. -/
+theorem calls_independent (profiles : List (Kind × Bool)) (tr : List (Nat × Lbl)) (ss : List S)
+    (hrun : runSys (profiles.map (fun p => init p.1 p.2)) tr = some ss)
+    (j : Nat) (k : Kind) (ig : Bool) (hj : profiles[j]? = some (k, ig)) :
+    ∃ s, ss[j]? = some s ∧ run (init k ig) (proj j tr) = some s ∧ Reach (init k ig) s := by
+  have h0 : (profiles.map (fun p => init p.1 p.2))[j]? = some (init k ig) := by
+    simp [List.getElem?_map, hj]
+  obtain ⟨s, hs, hr⟩ := (runSys_proj tr _ ss hrun).2 j _ h0
+  exact ⟨s, hs, hr, (run_facts _ _ s .init hr).1⟩
+
 /-- the full statement of the property for the *pinned* (unrepaired) `on_completion` is false:
 a function that ends cancelled reaches, on the pinned step function, a state where nothing is
 enabled except an outside cancellation of the caller, and the caller is still waiting (the hang
@@ -164,6 +177,14 @@ caller is cancelled before it resumes ⇒ cancelled -/
 example :
     (run (init .val false) [.taskEnds, .runCompletion, .callerCancel, .runResult, .callerWakes]).map
         (·.caller) = some (.done .cancelled) := by decide
+
+/-- two overlapping calls: the early one returns, the later one times out; each as if alone -/
+example :
+    (runSys [init .val false, init .val false]
+        [(0, .taskEnds), (1, .timerFires), (0, .runCompletion), (1, .runResult), (0, .runResult),
+         (1, .callerWakes), (0, .callerWakes), (1, .taskSeesCancel), (1, .runCompletion)]).map
+      (fun ss => ss.map (fun s => (s.caller, s.tmr)))
+    = some [(.done .res, .cancelled), (.done .timeout, .fired)] := by decide
 
 /-- a state that satisfies the hypotheses of `cleanup` with the timer still armed -/
 example :
